@@ -71,6 +71,19 @@ ARecv ==
   /\ inbox' = Tail(inbox)
   /\ UNCHANGED reg
 
+\* WritePacket of a request whose answer arrives - and is read and decoded by A's reader - while the request's
+\* bytes are still being handed to the transport (the peer is fast, the writer has not returned yet)
+ASendInline(p, it) ==
+  /\ p \in Requests /\ Registers(p) /\ it \in PeerItems /\ it.i = "pkt" /\ IsResult(it.p)
+  /\ inbox = <<>>
+  /\ LET pend1 == {x \in pending : x[1] # p.tid} \cup {<<p.tid, ReqName(p)>>}
+         d == DecodePkt(it.p, pend1)
+     IN /\ pending' = d[2]
+        /\ reg' = [reg EXCEPT ![p.tid] = @ + 1]
+        /\ matched' = Bump(it.p, d[1])
+        /\ hist' = Append(hist, [op |-> "send_inline", p |-> p, it |-> it, out |-> d[1], pending |-> d[2]])
+  /\ UNCHANGED inbox
+
 \* ExpectPacket(kind): decode everything on the way; stop at the first packet of that kind or at the first error
 RECURSIVE Scan(_, _, _, _, _)
 Scan(inb, pend, mt, kind, n) ==
@@ -106,6 +119,7 @@ AExpectMsg(ty) ==
 NOps == Cardinality({k \in 1..Len(hist) : hist[k].op # "peer"})
 Next == /\ NOps < MaxOps
         /\ \/ \E p \in Requests : ASend(p)
+           \/ \E p \in Requests, it \in PeerItems : ASendInline(p, it)
            \/ \E it \in PeerItems : PSend(it)
            \/ ARecv
            \/ \E k \in WaitKinds : AExpectPkt(k)
